@@ -163,6 +163,12 @@ def corpus_cases():
               "$PRED\n\"FIRST\n\" COMMON\nY=1;c\n;d\n\n", ";; x\n$SIZES LTH=3\n$PROBLEM\n$INPUT ID\n$es\n$ES 1\n", "$PK ()\nA=1\n", "$X\n$1\n",
               "$PROBLEM a\n$INPUT ID DV\n$DATA x.csv IGN=@\n$PRED\nY=THETA(1)+ETA(1)+EPS(1)\n$THETA 1\n$OMEGA 1\n$SIGMA 1\n$ABBR REPLACE THETA(CL)=THETA(1)\n"]:
         cases.append({"kind": "text", "text": t, "gen": ["src:hand"], "seed": 11})
+    # a known record without any content as the last thing of the file (seed C03e): text and edited model
+    for t in ["$PROBLEM x\n$THETA 1\n$COVARIANCE", "$PROB\n$ESTIMATION", "$PROBLEM\n$INPUT ID\n$cov"]:
+        cases.append({"kind": "text", "text": t, "gen": ["src:hand-bare-last"], "seed": 19})
+    cases.append({"kind": "model", "gen": ["src:hand-model-bare-last"], "seed": 23, "text":
+                  "$PROBLEM x\n$INPUT ID DV\n$DATA none.csv IGNORE=@\n$PRED\nY=THETA(1)+ETA(1)+EPS(1)\n$THETA 1\n$OMEGA 0.1\n$SIGMA 1\n"
+                  "$ESTIMATION METHOD=1 INTER ; foce\n$cov"})
     # regression witness of the fixed finding F-C03-2 (c1795fa): bounds of a multi-theta record keep their spelling
     cases.append({"kind": "model", "gen": ["src:hand-model"], "seed": 13, "text":
                   "$PROBLEM x\n$INPUT ID DV\n$DATA none.csv IGNORE=@\n$PRED\nY=THETA(1)+THETA(2)+THETA(3)+THETA(4)+ETA(1)+EPS(1)\n"
